@@ -269,6 +269,7 @@ func ruleDispatch(c *Ctx) {
 			continue
 		}
 		b.operationOrderObligation(l, ai)
+		b.handlersGetTheRootSlot(l, ai)
 		if b.Name == "v5" {
 			b.emptyPathIsRoot(l, ai)
 			b.oneOperationPerStep(l, ai)
@@ -1634,6 +1635,7 @@ func ruleSuccess(c *Ctx) {
 			continue
 		}
 		b.refusalReasons(l, ai)
+		b.resolverAndMergeRefusals(l, "R-SUCCESS")
 		need := map[string]string{"add": "add", "move": "add", "copy": "add", "replace": "set", "remove": "remove", "test": ""}
 		for _, k := range rfc6902Kinds {
 			h := ai.handlers[k]
